@@ -26,7 +26,9 @@ RULE = ("base token = generated signing plan (14 algs x key classes x compact/fl
         "extension by 1-3 octets and doubling, pairs of flips (sampled), every segment spliced from a second valid token, "
         "structural JSON edits (empty/missing signature list, one of several signatures corrupted, forged entry appended, "
         "swapped signatures, dropped protected member, shadowing unprotected alg, unprotected b64, flattened<->general), key "
-        "substitution and alg=none variants, through every verification entry point. A (token, fault) pair is non-trivial "
+        "substitution and alg=none variants, through every verification entry point (incl. extract+validate with another token extracted "
+        "in between, a caller-supplied payload other than the signed one, and '+again': the same token verified a second time after the "
+        "application edited the object the first call returned). A (token, fault) pair is non-trivial "
         "when the fault changes an octet of the signing input, the signature, the signature list or the key; distinct = "
         "digest of (alg, serialization, b64, entry point, fault descriptor).")
 ASSUMPTIONS = ["unforgeability of the primitives is assumed: a fault that yields another valid signature is judged by the reference, not assumed invalid",
